@@ -77,6 +77,7 @@ def run(chk, F):
     chk.guard("parts-provenance", "to_parts_digits/show", lambda: provenance(chk, F))
     chk.guard("parts-provenance", "NumberParts constructions", lambda: same_number(chk, F))
     chk.guard("quantity-label", "substance replies", lambda: quantity_label(chk, F))
+    chk.guard("list-part-names", "to_list", lambda: list_part_names(chk, F))
     chk.guard("factor-exact", "eval_unit_name", lambda: factor_exact(chk, F))
     chk.guard("decompose", "fast_decompose", lambda: decompose(chk, F))
     chk.guard("merge-closures", "btree_merge callers", lambda: merges(chk, F))
@@ -367,6 +368,40 @@ def quantity_label(chk, F):
                    "the value was divided by the constant, so numeral x unit is off by that factor (`water -> 2 kg`)")
     if m < 2:
         chk.anchor_lost("factor-never-dropped", "Substance::get_in_unit", "expected the two ratio branches of get_in_unit, found %d" % m)
+
+
+def list_part_names(chk, F):
+    """Each part of a unit list is printed as numeral + the list unit's name.  to_list wraps the part in a number whose unit
+    is an ad-hoc base unit *named after the list unit* and sends it through to_parts, which prettifies: the value is rescaled
+    and an SI prefix is glued onto that name.  For a name that is not a base unit the glued name need not exist (`kilokm`,
+    `kilohectoare`) or can be the name of another unit (`500 km -> hm;m` prints `5 kiloohm`: kilo + hm = kilohm, an alias
+    of kiloohm), so numeral x printed unit is not the part."""
+    cl = [f for f in F.by_crate[CORE] if f.path.startswith("runtime::eval::to_list::{closure")]
+    site = None
+    for fn in cl:
+        aggs = [(i, j) for i, j, st in fn.stmts() if st.get("rv", {}).get("k") == "agg" and str(st["rv"].get("adt", "")).endswith("number_parts::NumberParts")]
+        if not aggs:
+            continue
+        calls = [(bb, t) for bb, t in fn.calls() if "callee" in t and t["callee"]["path"].endswith("types::number::Number::to_parts")]
+        for bb, t in calls:
+            a = ap_str(fn.apath(t["args"][0]))
+            if "BaseUnit::new(arg2.0)" in a or "base_unit::BaseUnit::new(" in a:
+                # is the call restricted to base-unit names?
+                def acc(kind, gap, info):
+                    if kind == "bool" and ("base_units" in ap_str(gap) or "base_unit_long_names" in ap_str(gap)):
+                        return {"true"}
+                    return None
+                import k2
+                res, matched = k2.cut_gate(fn, [bb], acc)
+                gated = bool(matched) and res[bb]
+                site = (fn, bb, gated)
+    if site is None:
+        raise AnchorLost("to_list: the closure that renders the parts was not found")
+    fn, bb, gated = site
+    chk.decide(gated, "list-part-names", "rink_core::" + k1norm(fn.path), "prefix-only-on-base-units", fn.where(bb),
+               "list parts are prettified (SI prefix glued onto the list unit's name) only when that name is a base unit",
+               "every list part is prettified as if the list unit's name were a base unit: an SI prefix is glued onto arbitrary names "
+               "(`500 km -> hm;m` prints `5 kiloohm`, `12345 km -> km;m` prints `12.345 kilokm`)")
 
 
 def k1gen(fn):
